@@ -189,6 +189,9 @@ pub struct PipelinePlan {
 
 pub struct Pipeline {
     pub prop: &'static str,
+    /// thorough tier: each property's instantiation explores its own plans
+    /// (in the quick tier and in replays the five instantiations share them)
+    pub own_plans: bool,
 }
 
 fn frame_of(plan: &PipelinePlan, tx: &Tx) -> Option<(Vec<u8>, Option<world::TruthPoint>)> {
@@ -275,7 +278,11 @@ impl Scenario for Pipeline {
         "pipeline"
     }
     fn seed_tag(&self) -> String {
-        "pipeline".to_string()
+        if self.own_plans {
+            format!("pipeline/{}", self.prop)
+        } else {
+            "pipeline".to_string()
+        }
     }
     fn runs(&self, tier: Tier) -> u64 {
         match tier {
